@@ -10,6 +10,8 @@ use vstd::prelude::*;
 use vstd::std_specs::convert::*;
 use vstd::string::StringSliceAdditionalSpecFns;
 macro_rules! unreachable { () => { unreachable_shim() }; }
+// std::task::ready! as std defines it
+macro_rules! ready { ($e:expr) => { match $e { Poll::Ready(t) => t, Poll::Pending => return Poll::Pending } }; }
 verus! {
 
 // @canary-decls
@@ -241,6 +243,42 @@ impl SelectObjectContentEvent {
 //@@ extract event_into_message file=crates/s3s/src/dto/event_stream.rs item="impl SelectObjectContentEvent/fn into_message" rewrites=attr,ret
 }
 //@@ extract event_into_bytes file=crates/s3s/src/dto/event_stream.rs item="fn event_into_bytes" rewrites=attr,ret,trace
+
+// ---- the byte stream handed to hyper: one message per item of the backend's event stream ------------------------------------------
+pub enum Poll<T> { Ready(T), Pending }
+pub struct Context { pub o: u64 }
+pub struct StdError { pub o: u64 }
+/// `Box::new(e) as StdError` (a boxed dyn Error): opaque
+#[verifier::external_body]
+pub fn box_err(e: SerError) -> (r: StdError) { unimplemented!() }
+/// the backend's event stream with a ghost record of its last answer
+pub enum Last { Nothing, Pending, End, Item(S3Result<SelectObjectContentEvent>) }
+pub struct SelectObjectContentEventStream { pub last: Ghost<Last>, pub polls: Ghost<int> }
+impl SelectObjectContentEventStream {
+    #[verifier::external_body]
+    pub fn poll_next(&mut self, cx: &mut Context) -> (r: Poll<Option<S3Result<SelectObjectContentEvent>>>)
+        ensures final(self).polls@ == old(self).polls@ + 1,
+            final(self).last@ == (match r { Poll::Pending => Last::Pending, Poll::Ready(None) => Last::End, Poll::Ready(Some(it)) => Last::Item(it) })
+    { unimplemented!() }
+}
+pub struct Pin;
+impl Pin {
+    /// Pin::new(&mut x) for an Unpin value: the reference itself
+    pub fn new<T>(x: &mut T) -> (r: &mut T) ensures *r == *old(x), *final(r) == *final(x) { x }
+}
+pub struct Wrapper(pub SelectObjectContentEventStream);
+pub type WrapperItem = Result<Bytes, StdError>;
+/// what the wrapper hands on for an item: the framed message, or the framing error boxed
+pub open spec fn item_framed(it: S3Result<SelectObjectContentEvent>, r: Result<Bytes, SerError>) -> bool {
+    match it { Ok(event) => framed(event_msg(event), r), Err(err) => exists|m: Message| #[trigger] is_error_msg(m, err) && framed(m, r) }
+}
+pub open spec fn lifted(r: Result<Bytes, SerError>, out: WrapperItem) -> bool { (r matches Ok(b) ==> out == Ok::<Bytes, StdError>(b)) && (r is Err ==> out is Err) }
+pub open spec fn handed_on(it: S3Result<SelectObjectContentEvent>, out: WrapperItem) -> bool {
+    exists|r: Result<Bytes, SerError>| #[trigger] item_framed(it, r) && lifted(r, out)
+}
+impl Wrapper {
+//@@ extract wrapper_poll_next file=crates/s3s/src/dto/event_stream.rs item="impl Stream for Wrapper/fn poll_next" rewrites="attr,ret,trace,closure:1:StdError,subst:mut self: Pin<&mut Self>=>&mut self,subst:Context<'_>=>Context,subst:Self::Item=>WrapperItem,subst:Box::new(e) as StdError=>box_err(e)"
+}
 
 impl Message {
 //@@ extract serialize file=crates/s3s/src/dto/event_stream.rs item="impl Message/fn serialize" rewrites="attr,ret,closure:1:Option<usize>,closure:2:Option<usize>,closure:3:Option<usize>"
